@@ -14,16 +14,20 @@ CLAIM = dict(cat="proof", design="§3 C07, Appendix A.5",
         "wf_check is sound. make_graph true (literal model of make_hydro_tasks/set_dependencies/reset_hydro_tasks of the repaired code) is well formed for EVERY layout: any number >= 1 of subgrids per axis, every periodicity, including periodic axes of one or two subgrids "
         "(C07_make_graph_wf, unbounded, Cxx/C07_GraphGen.v: closed form of the sequential task numbering C07_make_graph_numbering, mutual in-range neighbours by div/mod arithmetic C07_neighbours_mutual/_in_range, and counting of the 23 child edges per subgrid over slot references - "
         "the reset counters 0/7/1/1|2/7/1 are exactly the in-degrees, <= 7 children, edges go up in phase; C07_make_graph_locks_exact: for every layout the locks of a task are exactly those of the subgrids it touches and a pair task of a subgrid with itself has one lock; "
-        "C07_wf_check_accepts_upto_4: independent kernel evaluation of the run-time checker wf_check on all 512 graphs <= 4x4x4). The pinned commit (make_graph false) is REFUTED for a periodic axis with exactly one subgrid "
+        "C07_wf_check_accepts_upto_4: independent kernel evaluation of the run-time checker wf_check on all 512 graphs <= 4x4x4). "
+        "SEMANTIC phase order (C07_phases_ordered, every layout): per subgrid s, any two tasks of the table that touch s (Task::_subgrid / Task::_buffer) and lie in consecutive phases gradient sweeps -> slope limiter -> primitive prediction -> flux sweeps -> conserved update -> primitive update "
+        "are linked by a DIRECT child edge and every phase has a task touching s; hence (C07_phases_ordered_in_every_run, with parents_first) in every run, any thread count, any schedule, a task touching s never starts before every EARLIER-phase task touching s has stopped; "
+        "C07_phases_ordered_check_sound: the executable check. A set_dependencies edge that is missing or attached to the wrong task but keeps the parent counts (wf still holds, nothing hangs) falsifies phases_ordered. The pinned commit (make_graph false) is REFUTED for a periodic axis with exactly one subgrid "
         "(C07_self_neighbour_refuted / _never_completes, defect D2: the pair task took the same lock twice; fixed, the D2 layouts stay in the corpus as regression cases: the real loop must terminate). "
         "Tie, every run: the real task table (harness includes the real translation unit and calls the real functions on a real DensitySubGridCreator) is diffed with make_graph for every layout <= 3x3x3 (thorough 4x4x4 + random larger) x 8 periodicities, "
-        "wf_check is evaluated on the REAL table, a hydro step is run on the real Task/TaskQueue/ThreadLock/AtomicValue objects with interleaved virtual threads that run is replayed label by label through the model's step function, the REAL worker loop (source lines of do_simulation included verbatim) is run on real OpenMP threads, "
+        "wf_check AND phases_ordered_check (extracted) are evaluated on the REAL table - when the real table fails the phase order and has no dependency path t1 -> t2, a legal execution order (topological order of the ancestors of t2 in the REAL table) is executed on the REAL task objects (real counters, locks, decrement) and t2 is observed to start while t1 has not run: VIOLATION kind phase_order -, "
+        "every real run (virtual threads and real OpenMP threads) is also checked by an independent phase oracle (a task touching s starts only after all earlier-phase tasks touching s stopped), a hydro step is run on the real Task/TaskQueue/ThreadLock/AtomicValue objects with interleaved virtual threads that run is replayed label by label through the model's step function, the REAL worker loop (source lines of do_simulation included verbatim) is run on real OpenMP threads, "
         "and an independent oracle checks property C07 on the real run.",
    note="Trusted: Coq kernel; ExtrOcamlBasic extraction + OCaml driver + Python oracle (correspondence only). make_graph_wf is proved for ALL layouts (nothing partial); that make_graph is the table the code builds is tied at run time (differential dump, plus wf_check evaluated on the dumped real tables). "
         "Abstractions, argued not proved: lock_dependency is one atomic step (its transient hold of the first lock only adds failed fetches, which the model allows at any time); the per-thread LIFO queues with stealing are one multiset with arbitrary choice; "
         "execute_task is not modelled (its footprint = Task::_subgrid and, for pair tasks, Task::_buffer, as in execute_task's switch). The virtual-thread executor of the harness re-types the loop skeleton (the real loop is inside do_simulation); every shared-data operation in it is the real member function. "
         "Observation proved as C07_early_exit_possible: a thread may leave the loop early (number_of_tasks transiently 0 between add_task and pre_increment) - loss of parallelism only.",
-   technique="inductive invariant over interleavings in Coq + general well-formedness proof of the task graph (closed-form numbering, div/mod neighbour arithmetic, edge counting) + kernel evaluation of wf_check + differential table dump + replay of real-primitive runs through the extracted step function")
+   technique="inductive invariant over interleavings in Coq + general well-formedness proof of the task graph (closed-form numbering, div/mod neighbour arithmetic, edge counting) + phase-order theorem and extracted phases_ordered_check on the real tables + kernel evaluation of wf_check + differential table dump + replay of real-primitive runs through the extracted step function")
 
 HARNESS = os.path.join(vf.VERIF, "harness/c07/dump_graph.cpp")
 DRIVER = os.path.join(vf.VERIF, "ocaml/c07_driver.ml")
@@ -77,6 +81,92 @@ def parse_blocks(lines):
             out.append(cur)
             cur = None
     return out
+
+
+PHASE = {"GI": 0, "GN": 0, "GB": 0, "SL": 1, "PP": 2, "FI": 3, "FN": 3, "FB": 3, "UC": 4, "UP": 5}
+PHASE_NAME = ["gradient sweep", "slope limiter", "primitive prediction", "flux sweep", "conserved update", "primitive update"]
+
+
+def touched(t):
+    """subgrids whose data execute_task reads/writes for this task: Task::_subgrid and, for pair tasks, Task::_buffer"""
+    return [t["sub"]] + ([t["other"]] if t["other"] is not None and t["other"] != t["sub"] else [])
+
+
+def phase_oracle(b):
+    """semantic reading of 'never starts a task before all tasks it depends on have finished', decided on one run of the REAL
+    objects (independent of the Coq model and of the child lists): a task that touches subgrid x must not start before every
+    task of an EARLIER phase (gradients -> limiter -> prediction -> fluxes -> conserved update -> primitive update) that
+    touches x has stopped"""
+    by_sub = {}
+    for t in b["tasks"]:
+        for x in touched(t):
+            by_sub.setdefault(x, []).append(t)
+    stopped = set()
+    n = len(b["tasks"])
+    for e in b.get("events", []):
+        t = int(e[1:])
+        if not 0 <= t < n:
+            continue
+        if e[0] == "+":
+            tt = b["tasks"][t]
+            for x in touched(tt):
+                for u in by_sub.get(x, []):
+                    if PHASE[u["kind"]] < PHASE[tt["kind"]] and u["id"] not in stopped:
+                        return ("task %s (%s) starts before task %s (%s), which touches the same subgrid %d, has finished"
+                                % (tname(b, t), PHASE_NAME[PHASE[tt["kind"]]], tname(b, u["id"]), PHASE_NAME[PHASE[u["kind"]]], x))
+        else:
+            stopped.add(t)
+    return None
+
+
+def phase_order_witness(b, t1, t2):
+    """a legal sequential execution order of the REAL table that runs t2 without having run t1: the ancestors of t2 in
+    topological order, then t2.  None if t1 is an ancestor of t2 (then the real table still enforces the order)."""
+    n = len(b["tasks"])
+    parents = [[] for _ in range(n)]
+    for t in b["tasks"]:
+        for c in t["children"]:
+            if 0 <= c < n:
+                parents[c].append(t["id"])
+    anc, stack = set(), [t2]
+    while stack:
+        c = stack.pop()
+        for p in parents[c]:
+            if p not in anc:
+                anc.add(p)
+                stack.append(p)
+    if t1 in anc or t1 == t2:
+        return None
+    # Kahn on the ancestor set (counting edges with multiplicity, as the parent counters do)
+    cnt = dict((a, sum(1 for p in parents[a])) for a in anc | {t2})
+    ready = sorted(a for a in anc if cnt[a] == 0)
+    order = []
+    while ready:
+        a = ready.pop(0)
+        order.append(a)
+        for c in b["tasks"][a]["children"]:
+            if c in cnt:
+                cnt[c] -= 1
+                if cnt[c] == 0 and c != t2:
+                    ready.append(c)
+                    ready.sort()
+    if len(order) != len(anc) or cnt[t2] != 0:
+        return None
+    return order + [t2]
+
+
+def run_ordered(ck, l, order, timeout=120):
+    """execute the REAL task objects in the given order (harness mode O); returns (verdict words, events)"""
+    text = "O %d %d %d %d %d %d %d %s\n" % (tuple(l) + (len(order), " ".join(str(x) for x in order)))
+    rc, out = vf.run_lines([os.path.join(ck.scratch, "impl")], text, timeout=timeout)
+    verdict, events = None, []
+    for ln in out:
+        w = ln.split()
+        if w and w[0] == "ordered":
+            verdict = w[1:]
+        elif w and w[0] == "events":
+            events = w[1:]
+    return verdict, events
 
 
 def tname(b, t):
@@ -278,6 +368,10 @@ def run(ck):
             why = run_oracle(b)
             if why:
                 report(b, why, nt, sd)
+            else:
+                why = phase_oracle(b)
+                if why:
+                    report(b, why, nt, sd, kind="phase_order")
         if b.get("lockfail") or table_defects(b):
             suspects.append((b, nt or 2, sd or 1))
     # --- the REAL worker loop (source lines of do_simulation, included verbatim) on real OpenMP threads
@@ -294,6 +388,10 @@ def run(ck):
             why = run_oracle(b)
             if why:
                 report(b, "[real worker loop on %d real threads] %s" % (nt, why), nt, -1)
+            else:
+                why = phase_oracle(b)
+                if why:
+                    report(b, "[real worker loop on %d real threads] %s" % (nt, why), nt, -1, kind="phase_order")
         if (rc_t != 0 or len(tblocks) != len(treqs)) and not any(v["replay"].get("seed") == -1 for v in ck.violations):
             ck.breaks.append("real-thread harness exited with %d after %d of %d runs" % (rc_t, len(tblocks), len(treqs)))
 
@@ -301,6 +399,7 @@ def run(ck):
     mism = 0
     nsim_total = 0
     sim_steps = 0
+    po_checked = po_failed = 0
     if okm:
         rc_m, out_m = vf.run_lines([os.path.join(d, "model")], "".join("M %d %d %d %d %d %d\n" % l for (_, l, _, _) in reqs), timeout=900)
         mblocks = parse_blocks(out_m)
@@ -339,6 +438,42 @@ def run(ck):
             if wf != "1":
                 ck.breaks.append("wf_check on the REAL task table of layout %s is %s (expected 1): %s" % (l, wf, table_defects(b)[:3]))
                 if not any(x[0] is b for x in suspects):
+                    suspects.append((b, nt or 2, sd or 1))
+            po = r.get("po", ["?"])
+            po_checked += 1
+            if po[0] != "1":
+                po_failed += 1
+                done = False
+                if po[:2] == ["0", "edge"] and len(po) == 5:
+                    t1, t2, x = int(po[2]), int(po[3]), int(po[4])
+                    order = phase_order_witness(b, t1, t2)
+                    if order is not None and ("phase_order", "missing_edge") not in viol_keys:
+                        verdict, ev = run_ordered(ck, l, order)
+                        if verdict and verdict[0] == "ok" and ("+%d" % t2) in ev and ("+%d" % t1) not in ev:
+                            viol_keys.add(("phase_order", "missing_edge"))
+                            why = ("the REAL task table has no dependency path from task %s (%s) to task %s (%s) although both touch subgrid %d and the second belongs to the next phase; "
+                                   "executing the REAL task objects in the order %s (every task started with its real parent counter at 0 and its real locks taken) starts %s while %s has NOT run"
+                                   % (tname(b, t1), PHASE_NAME[PHASE[b["tasks"][t1]["kind"]]], tname(b, t2), PHASE_NAME[PHASE[b["tasks"][t2]["kind"]]], x,
+                                      order, tname(b, t2), tname(b, t1)))
+                            ck.violation("C07 (a task starts before a task it depends on has finished) fails on the real task table, layout %dx%dx%d periodic=(%d,%d,%d): %s"
+                                         % (tuple(l) + (why,)),
+                                         {"layout": list(l), "nthreads": 1, "seed": 0, "failing_clause": why,
+                                          "phase_order": {"t1": t1, "t2": t2, "subgrid": x, "order": order, "observed_events": ev}},
+                                         key={"kind": "phase_order", "clause": "missing_edge"})
+                            done = True
+                        elif verdict:
+                            ck.breaks.append("phases_ordered_check fails on the REAL table of layout %s (%s) but the constructed order %s is rejected by the real task objects: %s"
+                                             % (l, " ".join(po), order, " ".join(verdict)))
+                            done = True
+                    elif order is not None:
+                        done = True
+                    elif po_failed <= 3:
+                        ck.breaks.append("phases_ordered_check on the REAL table of layout %s: the direct edge %s -> %s (both touch subgrid %d, consecutive phases) is missing, but %s is still an ancestor of %s (order enforced through a path)"
+                                         % (l, tname(b, t1), tname(b, t2), x, tname(b, t1), tname(b, t2)))
+                        done = True
+                if not done and po_failed <= 3:
+                    ck.breaks.append("phases_ordered_check on the REAL task table of layout %s is %s (expected 1)" % (l, " ".join(po)))
+                if not any(x_[0] is b for x_ in suspects):
                     suspects.append((b, nt or 2, sd or 1))
             rp = r.get("replay", ["none"])
             if m == "S":
@@ -380,6 +515,8 @@ def run(ck):
                    "non-trivial = distinct layouts with a periodic axis of at most two subgrids (wrap-around neighbours coincide or are the subgrid itself)" % (3 if ck.quick else 4, 4 if ck.quick else 30))
     cov["exhaustive_box"] = "nx,ny,nz in 1..%d, all 8 periodicities" % (3 if ck.quick else 4)
     cov["table_mismatches"] = mism
+    cov["real_tables_phases_ordered_check"] = po_checked
+    cov["real_tables_phases_ordered_check_failed"] = po_failed
     cov["task_type_histogram"] = hist
     cov["tasks_compared"] = sum(hist.values())
     cov["regression_layouts_D2_periodic_axis_with_one_subgrid"] = sum(1 for (_, l, _, _) in reqs if self_neighbour(l))
@@ -409,6 +546,20 @@ def replay(ck, rp):
         return 2
     r = rp["replay"]
     l = tuple(r["layout"])
+    if "phase_order" in r:
+        po = r["phase_order"]
+        rc, blocks = run_impl(ck, [("G", l, 0, 0)])
+        b = blocks[0]
+        order = phase_order_witness(b, po["t1"], po["t2"])
+        if order is None:
+            print("REPLAY: property holds on this input (task %s is an ancestor of task %s in the real table)" % (tname(b, po["t1"]), tname(b, po["t2"])))
+            return 0
+        verdict, ev = run_ordered(ck, l, order)
+        bad = bool(verdict) and verdict[0] == "ok" and ("+%d" % po["t2"]) in ev and ("+%d" % po["t1"]) not in ev
+        print("layout=%s order=%s ordered=%s events=%s" % (l, order, verdict, " ".join(ev)))
+        print("REPLAY:", ("task %s starts on the real task objects while %s, an earlier-phase task touching subgrid %d, has not run"
+                          % (tname(b, po["t2"]), tname(b, po["t1"]), po["subgrid"])) if bad else "property holds on this input")
+        return 1 if bad else 0
     if r.get("seed", 1) == -1:     # found with the real loop on real threads: nondeterministic, try a few times
         ck.real_loop = extract_loop(ck) is not None
         vf.cxx_build(HARNESS, os.path.join(ck.scratch, "impl"), libs=True, extra=["-DC07_REAL_LOOP", "-I" + ck.scratch])
@@ -416,14 +567,14 @@ def replay(ck, rp):
         for k in range(40):
             rc, blocks = run_impl(ck, [("T", l, max(1, r.get("nthreads", 2)), 0)], timeout=30)
             b = blocks[0]
-            why = run_oracle(b)
+            why = run_oracle(b) or phase_oracle(b)
             if why:
                 break
         print("REPLAY:", why or "property holds on this input (40 real-thread runs)")
         return 1 if why else 0
     rc, blocks = run_impl(ck, [("S", l, max(1, r.get("nthreads", 1)), r.get("seed", 1))])
     b = blocks[0]
-    why = run_oracle(b)
+    why = run_oracle(b) or phase_oracle(b)
     if not why:
         pc = real_pair_conflict(ck, b)
         if pc:
